@@ -637,6 +637,43 @@ func mergeCases(c *core.Ctx) {
 	if r2 == 1 {
 		binRoot(n2)
 	}
+	// inner labels that look like trouble but are none: an inner node of one tree named like a tip of the
+	// other, two inner nodes sharing a label — the tips stay disjoint, the merge must succeed
+	var inners func(x *core.N, acc *[]*core.N)
+	inners = func(x *core.N, acc *[]*core.N) {
+		for _, k := range x.Kids {
+			if len(k.Kids) > 0 {
+				*acc = append(*acc, k)
+			}
+			inners(k, acc)
+		}
+	}
+	if g.Chance(0.3) {
+		var in1, in2 []*core.N
+		inners(n1, &in1)
+		inners(n2, &in2)
+		switch g.Intn(4) {
+		case 0:
+			if len(in2) > 0 {
+				in2[g.Intn(len(in2))].Name = n1.TipNames()[0]
+				in2[0].E.Sup = -1
+			}
+		case 1:
+			if len(in1) > 0 {
+				in1[g.Intn(len(in1))].Name = n2.TipNames()[0]
+			}
+		case 2:
+			if len(in2) >= 2 {
+				in2[0].Name, in2[len(in2)-1].Name = "SAME", "SAME"
+			} else {
+				n2.Name = n1.TipNames()[0] // the root of the second tree
+			}
+		default:
+			if len(in1) >= 2 {
+				in1[0].Name, in1[len(in1)-1].Name = "SAME", "SAME"
+			}
+		}
+	}
 	if g.Chance(0.3) {
 		addSingles(g, &core.TreeOpts{Lengths: 2, LenDenom: 8, LenMax: 40, Supports: 2}, n1, 0.15)
 		core.NumberEdges(n1)
@@ -833,6 +870,9 @@ func Replay(c *core.Ctx, lines []string) {
 		case f[0] == "C15.graft" && len(f) >= 5:
 			tip, _ := core.Unescape(f[3])
 			doGraft(c, f[1] == "1", mustDump(f[2]), tip, mustDump(f[4]))
+		case f[0] == "C15.graftins" && len(f) >= 5:
+			tip, _ := core.Unescape(f[2])
+			doGraftIns(c, mustDump(f[1]), tip, mustDump(f[3]), parseStrLists(f[4]))
 		case f[0] == "C15.merge" && len(f) >= 5:
 			doMerge(c, f[1] == "1", f[2] == "1", mustDump(f[3]), mustDump(f[4]))
 		case f[0] == "C15.insid" && len(f) >= 4:
@@ -879,6 +919,7 @@ func Run(c *core.Ctx) {
 	n := c.Scale(70, 2500)
 	for i := 0; i < n; i++ {
 		graftCases(c)
+		graftInsCases(c)
 		mergeCases(c)
 		mergeCases(c)
 		insidCases(c)
@@ -1189,4 +1230,53 @@ func heapOpCases(c *core.Ctx) {
 		tips := n.TipNames()
 		doHeapOp(c, "insid", n, tips[g.Intn(len(tips))], nil)
 	}
+}
+
+// doGraftIns: two steps of the property in a row — graft a tree on a tip, then insert identical tips next
+// to tips of the result (a grafted tip, a host tip, or — to be refused — the replaced tip).
+func doGraftIns(c *core.Ctx, n *core.N, tip string, gn *core.N, groups [][]string) {
+	t := build(n, true)
+	gt := build(gn, true)
+	var err error
+	p, msg := core.Safe(func() { err = t.GraftTreeOnTip(tip, gt) })
+	oc1 := outcome(p, msg, err)
+	oc2, d, wf := "", "", ""
+	if oc1 == "ok" {
+		p, msg = core.Safe(func() { err = t.InsertIdenticalTips(groups) })
+		oc2 = outcome(p, msg, err)
+		if !p {
+			d, wf = read(t)
+		}
+	}
+	c.Emit("C15.graftins", n.Dump(), core.Escape(tip), gn.Dump(), core.StrLists(groups), oc1, oc2, d, wf)
+}
+
+func graftInsCases(c *core.Ctx) {
+	g := c.G
+	n := genTree(g, "t", 2)
+	gn := genTree(g, "g", 2)
+	tips := tipsBelowRoot(n)
+	tip := tips[g.Intn(len(tips))]
+	gl := tipsBelowRoot(gn)
+	var groups [][]string
+	switch g.Intn(6) {
+	case 0: // next to a host tip
+		for _, x := range tips {
+			if x != tip {
+				groups = append(groups, []string{x, "n0"})
+				break
+			}
+		}
+	case 1: // next to the replaced tip: no such tip any more
+		groups = append(groups, []string{tip, "n0"})
+	default: // next to grafted tips
+		groups = append(groups, []string{gl[g.Intn(len(gl))], "n0", "n1"})
+		if g.Chance(0.4) && len(gl) >= 2 && gl[0] != groups[0][0] {
+			groups = append(groups, []string{"n2", gl[0]})
+		}
+	}
+	if len(groups) == 0 {
+		groups = [][]string{{gl[0], "n0"}}
+	}
+	doGraftIns(c, n, tip, gn, groups)
 }
